@@ -80,7 +80,7 @@ func mustLoad() *Global {
 
 func cmdVerify(args []string) {
 	fs := flag.NewFlagSet("verify", flag.ExitOnError)
-	timeout := fs.Int("t", 10, "solver timeout (s)")
+	timeout := fs.Int("t", 30, "solver timeout (s)")
 	dump := fs.String("dump", "", "obligation id (substring) to dump as SMT-LIB to stdout")
 	all := fs.Bool("all", false, "run all solvers")
 	verbose := fs.Bool("v", false, "print every obligation")
